@@ -317,6 +317,10 @@ class G19(gen.Gen):
                     segs.append((S("contains", "contains"), inner))
                 units.append(Block("module", S("module %s" % mn, "module"), S("end module %s" % mn, "end"), segs, unit=True))
             else:
+                if r.chance(40):
+                    units.append(Block("block_data", S("block data", "block_data"), S(r.pick(["end block data", "end"]), "end"),
+                                       [(None, [S("common /blk/ x, y", "decl"), S("data x, y /1.0, 2.0/", "decl")])], unit=True))
+                    continue
                 units.append(Block("block_data", S("block data %s" % nm, "block_data"), S("end block data %s" % nm, "end"),
                                    [(None, [S("common /blk/ x, y", "decl"), S("data x /1.0/", "decl")])], unit=True))
         return units
